@@ -36,6 +36,7 @@ type val struct {
 	s    []byte // string (UTF-8) or byte string
 	arr  []*val
 	keys []*val // kStr or kBytes
+	raw  bool   // kBytes that the format's torepr returns as the raw byte string (bson): rendered as `s`
 	vals []*val
 }
 
@@ -82,7 +83,11 @@ func (v *val) render(sb *strings.Builder) {
 	case kStr:
 		sb.WriteString("s" + hexOrDash(v.s))
 	case kBytes:
-		sb.WriteString("b" + hexOrDash(v.s))
+		if v.raw {
+			sb.WriteString("s" + hexOrDash(v.s))
+		} else {
+			sb.WriteString("b" + hexOrDash(v.s))
+		}
 	case kArr:
 		fmt.Fprintf(sb, "A%d", len(v.arr))
 		for _, x := range v.arr {
@@ -150,6 +155,8 @@ func renderJQ(sb *strings.Builder, v any) {
 
 // ---- generators
 
+type bigInt = big.Int
+
 type caps struct {
 	null, boolean, float, bytes bool
 	intMin, intMax               *big.Int
@@ -163,6 +170,7 @@ var (
 	maxI64   = new(big.Int).Sub(two63, big.NewInt(1))
 	maxU64   = new(big.Int).Sub(two64, big.NewInt(1))
 	negTwo64 = new(big.Int).Neg(two64)
+	twoPow70 = new(big.Int).Lsh(big.NewInt(1), 70)
 )
 
 var unicodePool = []string{"", "a", "key", "é", "日本語", "𝄞", "\u0000", "a\"b\\c", " ", " \t\n", "ÿ", "\U0010ffff", "ascii only text", "ñandú", "\ufeffbom first", "bom \ufeff inside"}
